@@ -49,10 +49,10 @@ def check(run, cases=None):
             # sign-canonical convention changes the cross-term contribution: recompute from the flipped exact error
             ev = np.array([(1 if j < 3 else -1) * obs['e'][j][0] / obs['e'][j][1] for j in range(6)])
             exp = float(ev @ B.info(c['W']) @ ev)
-        at_pi = has_atom and abs(abs(a) - np.pi) < 1e-9
+        at_pi = (has_atom and abs(abs(a) - np.pi) < 1e-9) or (c['fam'] == 'odo' and c['k'] == 'SE3' and obs['w'][0] == 0)
         tolc = TOL * 40 * wmax * (S + 4) ** 2
         if at_pi:
-            run.skip('chi2 with angular error exactly +-pi (sign of the error is conventional)')
+            run.skip('chi2 with angular error exactly +-pi / rotational error exactly a half turn (sign of the error is conventional)')
         elif abs(chi2 - exp) > tolc:
             run.violation(dict(fam=c['fam'], k=c['k'], check='chi2'), 'chi2: code %r, exact %r (dev %.3g > %.3g) | case %r' % (float(chi2), exp, abs(chi2 - exp), tolc, c),
                           dict(case=c, expected=obs))
